@@ -34,22 +34,31 @@ type vfC15EvB struct {
 	E string
 	N int
 }
+type vfC15EvC struct {
+	E string
+	N int
+}
 
 // universe shared with spec/C15_Trace.tla
 var vfC15SubTypes = map[string][]string{
 	"s1": {"A"}, "s2": {"A"}, "s3": {"A", "B"}, "s4": {"B"},
 	"s5": {"A"}, "s6": {"B", "A"}, "s7": {"A"}, "s8": {"A", "B"},
+	"s9": {"A", "C"}, "s10": {"C", "A"}, "s11": {"C"}, "s12": {"B", "C"},
 }
-var vfC15EmTyp = map[string]string{"e1": "A", "e2": "A", "e3": "B"}
+var vfC15EmTyp = map[string]string{"e1": "A", "e2": "A", "e3": "B", "e4": "C"}
+var vfC15Emitters = []string{"e1", "e2", "e3", "e4"}
+
+// stateful types and their emitters
+var vfC15Stateful = map[string][]string{"A": {"e1", "e2"}, "C": {"e4"}}
 
 type vfC15Rec struct {
-	mu     sync.Mutex
-	seq    int64
-	evs    []map[string]any
-	rnd    *rand.Rand
-	perturb int // 0 none, 1 yields, 2 yields+sleeps
-	chID   sync.Map // channel pointer string -> sub id (filled after Subscribe returns)
-	adone  map[string]int // channel pointer string -> number of n.asyncdone hooks seen (synchronisation only)
+	mu      sync.Mutex
+	seq     int64
+	evs     []map[string]any
+	rnd     *rand.Rand
+	perturb int            // 0 none, 1 yields, 2 yields+sleeps
+	chID    sync.Map       // channel pointer string -> sub id (filled after Subscribe returns)
+	adone   map[string]int // channel pointer string -> number of n.asyncdone hooks seen (synchronisation only)
 }
 
 func (r *vfC15Rec) asyncDone(ptr string) int {
@@ -95,6 +104,8 @@ func vfC15Hook(ev string, typ reflect.Type, ch any, evt any) {
 			m["t"] = "A"
 		case reflect.TypeOf(vfC15EvB{}):
 			m["t"] = "B"
+		case reflect.TypeOf(vfC15EvC{}):
+			m["t"] = "C"
 		default:
 			m["t"] = typ.String()
 		}
@@ -107,18 +118,23 @@ func vfC15Hook(ev string, typ reflect.Type, ch any, evt any) {
 		m["e"], m["n"] = e.E, e.N
 	case vfC15EvB:
 		m["e"], m["n"] = e.E, e.N
+	case vfC15EvC:
+		m["e"], m["n"] = e.E, e.N
 	}
 	r.emit(m)
 }
 
 type vfC15SubPlan struct {
-	id       string
-	wildcard bool
-	buf      int
-	stable   bool // closed only after all emitters finished and the channel was read empty
+	id         string
+	wildcard   bool
+	buf        int
+	stable     bool // closed only after all emitters finished and the channel was read empty
 	startYield int
 	closeAfter int // closing subs: call Close after this many received events (or at the end)
-	slow     bool
+	slow       bool
+	early      bool // subscribes before any emitter starts (multi-type subscriptions with small buffers)
+	late       bool // subscribes after every emitter has finished: only retained events can arrive
+	stopRead   bool // closing subs: stop reading, then call Close (the bus's own drain must unblock emitters)
 }
 
 type vfC15Recv struct {
@@ -129,10 +145,10 @@ type vfC15Recv struct {
 }
 
 type vfC15SubState struct {
-	plan              vfC15SubPlan
-	subCall, subRet   int64
+	plan                vfC15SubPlan
+	subCall, subRet     int64
 	closeCall, closeRet int64
-	recvs             []vfC15Recv
+	recvs               []vfC15Recv
 }
 
 type vfC15Emit struct{ call, ret int64 }
@@ -157,12 +173,12 @@ func (it *vfC15Iter) guard(where string) {
 }
 
 func vfC15Plan(rnd *rand.Rand) (map[string]int, []vfC15SubPlan, map[string]bool) {
-	nev := map[string]int{"e1": rnd.Intn(6), "e2": rnd.Intn(5), "e3": rnd.Intn(4)}
+	nev := map[string]int{"e1": rnd.Intn(6), "e2": rnd.Intn(5), "e3": rnd.Intn(4), "e4": rnd.Intn(4)}
 	if rnd.Intn(4) == 0 {
 		nev["e2"] = 0
 	}
 	var plans []vfC15SubPlan
-	ids := []string{"s1", "s2", "s3", "s4", "s5", "s6", "s7", "s8"}
+	ids := []string{"s1", "s2", "s3", "s4", "s5", "s6", "s7", "s8", "s9", "s10", "s11", "s12"}
 	rnd.Shuffle(len(ids), func(i, j int) { ids[i], ids[j] = ids[j], ids[i] })
 	nt := 1 + rnd.Intn(4)
 	for _, id := range ids[:nt] {
@@ -176,18 +192,35 @@ func vfC15Plan(rnd *rand.Rand) (map[string]int, []vfC15SubPlan, map[string]bool)
 	for i := range plans {
 		p := &plans[i]
 		p.buf = bufs[rnd.Intn(len(bufs))]
+		p.stopRead = rnd.Intn(3) == 0
 		if !p.wildcard && len(vfC15SubTypes[p.id]) > 1 {
 			// known finding deadlock-multitype-subscribe-buslock (reproduced deterministically in
 			// zz_verif_c15_deadlock_test.go): a multi-type subscription whose channel can fill up
-			// during Subscribe can deadlock the bus; the general workload keeps out of it
-			p.buf = 32
+			// DURING Subscribe can deadlock the bus; the general workload keeps out of it: such a
+			// subscription either has a buffer nothing can fill, or subscribes before any emitter starts
+			switch rnd.Intn(3) {
+			case 0:
+				p.early = true
+				p.startYield = 0
+			case 1:
+				// room for the first retained event: with an unbuffered channel the goroutine that
+				// sends it keeps the first node locked while Subscribe still needs the bus lock for
+				// the second type - the known finding again, with the retained event in the role of
+				// the stalled Emit
+				p.late = true
+				p.stable = true
+				p.stopRead = false
+				p.buf = 1
+			default:
+				p.buf = 32
+			}
 		}
 		p.stable = rnd.Intn(2) == 0
 		p.startYield = rnd.Intn(6)
 		p.closeAfter = rnd.Intn(5)
 		p.slow = rnd.Intn(3) == 0
 	}
-	closeEm := map[string]bool{"e1": rnd.Intn(3) == 0, "e2": rnd.Intn(3) == 0, "e3": rnd.Intn(3) == 0}
+	closeEm := map[string]bool{"e1": rnd.Intn(3) == 0, "e2": rnd.Intn(3) == 0, "e3": rnd.Intn(3) == 0, "e4": rnd.Intn(3) == 0}
 	return nev, plans, closeEm
 }
 
@@ -201,12 +234,15 @@ func (it *vfC15Iter) run(perturb int) bool {
 	it.eclose = map[string]int64{}
 	bus := NewBus()
 	ems := map[string]event.Emitter{}
-	for _, e := range []string{"e1", "e2", "e3"} {
+	for _, e := range vfC15Emitters {
 		var em event.Emitter
 		var err error
-		if vfC15EmTyp[e] == "A" {
+		switch vfC15EmTyp[e] {
+		case "A":
 			em, err = bus.Emitter(new(vfC15EvA), Stateful)
-		} else {
+		case "C":
+			em, err = bus.Emitter(new(vfC15EvC), Stateful)
+		default:
 			em, err = bus.Emitter(new(vfC15EvB))
 		}
 		if err != nil {
@@ -218,19 +254,30 @@ func (it *vfC15Iter) run(perturb int) bool {
 	vfC15Cur.Store(it.rec)
 	defer vfC15Cur.Store(nil)
 
-	var emWG, subWG sync.WaitGroup
+	var emWG, subWG, earlyWG sync.WaitGroup
 	emittersDone := make(chan struct{})
-	for _, e := range []string{"e1", "e2", "e3"} {
+	startEmit := make(chan struct{})
+	for _, p := range plans {
+		if p.early {
+			earlyWG.Add(1)
+		}
+	}
+	go func() { earlyWG.Wait(); close(startEmit) }()
+	for _, e := range vfC15Emitters {
 		emWG.Add(1)
 		go func(e string) {
 			defer emWG.Done()
 			defer it.guard("emitter " + e)
+			<-startEmit
 			for n := 1; n <= nev[e]; n++ {
 				c := it.rec.emit(map[string]any{"ev": "emit_call", "e": e, "n": n})
 				var err error
-				if vfC15EmTyp[e] == "A" {
+				switch vfC15EmTyp[e] {
+				case "A":
 					err = ems[e].Emit(vfC15EvA{E: e, N: n})
-				} else {
+				case "C":
+					err = ems[e].Emit(vfC15EvC{E: e, N: n})
+				default:
 					err = ems[e].Emit(vfC15EvB{E: e, N: n})
 				}
 				r := it.rec.emit(map[string]any{"ev": "emit_ret", "e": e, "n": n})
@@ -260,6 +307,9 @@ func (it *vfC15Iter) run(perturb int) bool {
 			for i := 0; i < p.startYield; i++ {
 				runtime.Gosched()
 			}
+			if p.late {
+				<-emittersDone
+			}
 			st.subCall = it.rec.emit(map[string]any{"ev": "sub_call", "s": p.id})
 			var sub event.Subscription
 			var err error
@@ -268,9 +318,12 @@ func (it *vfC15Iter) run(perturb int) bool {
 			} else {
 				var types []any
 				for _, t := range vfC15SubTypes[p.id] {
-					if t == "A" {
+					switch t {
+					case "A":
 						types = append(types, new(vfC15EvA))
-					} else {
+					case "C":
+						types = append(types, new(vfC15EvC))
+					default:
 						types = append(types, new(vfC15EvB))
 					}
 				}
@@ -281,6 +334,9 @@ func (it *vfC15Iter) run(perturb int) bool {
 			}
 			it.rec.chID.Store(fmt.Sprintf("%p", chanOf(sub)), p.id)
 			st.subRet = it.rec.emit(map[string]any{"ev": "sub_ret", "s": p.id})
+			if p.early {
+				earlyWG.Done()
+			}
 			out := sub.Out()
 			record := func(ev any) {
 				var rv vfC15Recv
@@ -289,6 +345,8 @@ func (it *vfC15Iter) run(perturb int) bool {
 					rv = vfC15Recv{e: e.E, n: e.N, typ: "A"}
 				case vfC15EvB:
 					rv = vfC15Recv{e: e.E, n: e.N, typ: "B"}
+				case vfC15EvC:
+					rv = vfC15Recv{e: e.E, n: e.N, typ: "C"}
 				default:
 					panic(fmt.Sprintf("received foreign value %T", ev))
 				}
@@ -356,8 +414,28 @@ func (it *vfC15Iter) run(perturb int) bool {
 					}()
 				})
 			}
-			if p.closeAfter == 0 {
+			if p.closeAfter == 0 && !p.stopRead {
 				trigger()
+			}
+			if p.stopRead {
+				// read closeAfter events (or until the emitters are done), then stop reading and call
+				// Close: from here on only the bus's own drain goroutine empties the channel
+				n := 0
+				ed := (<-chan struct{})(emittersDone)
+				for n < p.closeAfter && ed != nil {
+					select {
+					case ev, ok := <-out:
+						if !ok {
+							panic("channel closed before Close")
+						}
+						record(ev)
+						n++
+					case <-ed:
+						ed = nil
+					}
+				}
+				doClose()
+				return
 			}
 			n := 0
 			ed := (<-chan struct{})(emittersDone)
@@ -420,7 +498,7 @@ func (it *vfC15Iter) check() [][2]string {
 	}
 	for _, st := range it.subs {
 		p := st.plan
-		asked := map[string]bool{"A": true, "B": true}
+		asked := map[string]bool{"A": true, "B": true, "C": true}
 		if !p.wildcard {
 			asked = map[string]bool{}
 			for _, t := range vfC15SubTypes[p.id] {
@@ -467,17 +545,20 @@ func (it *vfC15Iter) check() [][2]string {
 				}
 			}
 		}
-		// retained event first (stateful type A), when the node cannot have been dropped
-		if !p.wildcard && asked["A"] {
-			alive := false // some A-emitter was still open when Subscribe returned
-			for _, e := range []string{"e1", "e2"} {
+		// retained event first (stateful types), when the node cannot have been dropped
+		for styp, sems := range vfC15Stateful {
+			if p.wildcard || !asked[styp] {
+				continue
+			}
+			alive := false // some emitter of the type was still open when Subscribe returned
+			for _, e := range sems {
 				if c, ok := it.eclose[e]; !ok || c > st.subRet {
 					alive = true
 				}
 			}
 			cands := map[string]bool{}
 			must := false
-			for _, e := range []string{"e1", "e2"} {
+			for _, e := range sems {
 				best := 0
 				for i, em := range it.emits[e] {
 					if em.ret != 0 && em.ret < st.subCall {
@@ -492,21 +573,20 @@ func (it *vfC15Iter) check() [][2]string {
 					cands[fmt.Sprintf("%s#%d", e, best)] = true
 				}
 			}
-			var firstA *vfC15Recv
+			var first *vfC15Recv
 			for i := range st.recvs {
-				if st.recvs[i].typ == "A" {
-					firstA = &st.recvs[i]
+				if st.recvs[i].typ == styp {
+					first = &st.recvs[i]
 					break
 				}
 			}
 			if alive && must {
-				if firstA == nil {
+				if first == nil {
 					if p.stable {
-						add("retained-missing", "%s subscribed to a stateful type after an event was emitted but received nothing of that type", p.id)
+						add("retained-missing", "%s subscribed to stateful type %s after an event was emitted but received nothing of that type", p.id, styp)
 					}
-				} else if !cands[fmt.Sprintf("%s#%d", firstA.e, firstA.n)] && (st.closeCall == 0 || firstA.seq < st.closeCall) {
-					// the first event may only be a later one if it is one emitted after subscribing AND the retained one was delivered before... it was not
-					add("retained-not-first", "%s first received %s#%d; the retained event must be one of %v", p.id, firstA.e, firstA.n, vfC15Keys(cands))
+				} else if !cands[fmt.Sprintf("%s#%d", first.e, first.n)] && (st.closeCall == 0 || first.seq < st.closeCall) {
+					add("retained-not-first", "%s first received %s#%d of type %s; the retained event must be one of %v", p.id, first.e, first.n, styp, vfC15Keys(cands))
 				}
 			}
 		}
